@@ -185,7 +185,7 @@ def _object(case, ctx):
         fields = dict(
             filename="x.fil", data_type=str(rng.choice(dts)), nchans=int(rng.integers(1, 4097)),
             foff=float(rng.choice([-1, 1]) * rng.choice([0.1, 1 / 3, 0.390625, 4.0, float(rng.random() * 10 + 1e-3)])),
-            fch1=float(rng.uniform(50, 5000)), nbits=nbits, tsamp=float(10 ** rng.uniform(-6, -1)),
+            fch1=float(rng.uniform(50, 5000)), nbits=nbits, tsamp=float(10 ** rng.uniform(-6, -1)) if j % 9 != 4 else float(rng.choice([1.0, 10.0, 16.0, 60.0, 1.5])),
             tstart=float(rng.uniform(40000, 70000)), nsamples=0, nifs=int(rng.integers(1, 5)),
             coord=SkyCoord(ra_h * u.hourangle, dec_d * u.deg), azimuth=Angle(_azimuth(rng, ctx) * u.deg),
             zenith=Angle(float(rng.uniform(0, 90)) * u.deg), telescope=str(rng.choice(tels)), backend=str(rng.choice(backs)),
